@@ -125,6 +125,58 @@ Theorem C28_batch_passthrough : forall pol cc hasinit attempts fl ps resps d i i
 Proof. exact dstep_none_keeps. Qed.
 Print Assumptions C28_batch_passthrough.
 
+(** ---- the policy's bound is a bound on the rounds of a cluster batch ----
+    clusterClient.DoMulti keeps ONE attempt counter and one redirect counter per call.  Every round starts with
+    its own redirect count at 0 and its delay at -1 (the [retries.Redirects = 0] / [retries.RetryDelay = -1] of the
+    code): a round in which some member was redirected is a redirect round (no wait, [attempts] unchanged, the
+    redirect counter of the call goes up); a round without redirect that queued a retry waits and increments
+    [attempts]. *)
+Theorem C28_batch_round_reset : forall f c srv hasinit k m attempts redirects asg cn sends,
+  rounds (S f) c srv hasinit k m attempts redirects asg cn sends =
+  let st := fold_left (do_group (bc_policy c) srv hasinit attempts (bc_flags c k)) m (mkRstate [] 0 (-1) asg cn []) in
+  let sends' := sends ++ map (fun w => (k, w)) (r_sends st) in
+  match apply_actions (bc_perm c k (r_acts st)) with
+  | [] => (r_results st, sends', BDone)
+  | m' =>
+    if (0 <? r_redirects st)%nat then
+      if (0 <? bc_max c) && (bc_max c <? redirects + 1) then (r_results st, sends', BDone)
+      else rounds f c srv hasinit (S k) m' attempts (redirects + 1) (r_results st) (r_cnt st) sends'
+    else if 0 <=? r_delay st then rounds f c srv hasinit (S k) m' (S attempts) redirects (r_results st) (r_cnt st) sends'
+    else (r_results st, sends', BDone)
+  end.
+Proof. intros. cbn [rounds]. destruct (apply_actions _); reflexivity. Qed.
+Print Assumptions C28_batch_round_reset.
+
+(** a round run at an attempt number at which the policy declines (for every error) never waits for a retry:
+    unless one of its members was redirected, the call ends with it — whatever the servers answered, whatever
+    happened in earlier rounds (redirect rounds included) *)
+Theorem C28_batch_declined_round_ends : forall c srv hasinit f k m attempts redirects asg cn sends,
+  (forall r, p_delay (bc_policy c) attempts r < 0) ->
+  let st := fold_left (do_group (bc_policy c) srv hasinit attempts (bc_flags c k)) m (mkRstate [] 0 (-1) asg cn []) in
+  r_delay st = -1 /\
+  (r_redirects st = 0%nat ->
+   rounds (S f) c srv hasinit k m attempts redirects asg cn sends
+   = (r_results st, sends ++ map (fun w => (k, w)) (r_sends st), BDone)).
+Proof. intros. now apply rounds_declined_round_ends. Qed.
+Print Assumptions C28_batch_declined_round_ends.
+
+(** a retry round (wait, attempts + 1) is entered only at an attempt number below the policy's bound *)
+Theorem C28_batch_retry_round_below_bound : forall c srv hasinit B k m attempts asg cn,
+  (forall a r, (B <= a)%nat -> p_delay (bc_policy c) a r < 0) ->
+  let st := fold_left (do_group (bc_policy c) srv hasinit attempts (bc_flags c k)) m (mkRstate [] 0 (-1) asg cn []) in
+  0 <= r_delay st -> (attempts < B)%nat.
+Proof. intros. eapply rounds_retry_round_below_bound; eauto. Qed.
+Print Assumptions C28_batch_retry_round_below_bound.
+
+(** the number of rounds of one call — hence the number of times any member is sent — is bounded by the policy's
+    bound plus the redirect limit: every write of the call happens in a round with index <= (B - 1) + MaxMovedRedirections *)
+Theorem C28_batch_rounds_bounded : forall c srv hasinit m fuel B asg sends out,
+  (1 <= B)%nat -> (forall a r, (B <= a)%nat -> p_delay (bc_policy c) a r < 0) -> 0 < bc_max c ->
+  cluster_domulti fuel c srv hasinit m = (asg, sends, out) ->
+  forall k w, In (k, w) sends -> Z.of_nat k <= Z.of_nat B - 1 + bc_max c.
+Proof. intros. eapply domulti_rounds_bounded; eauto. Qed.
+Print Assumptions C28_batch_rounds_bounded.
+
 (** ---- non-vacuity ---- *)
 Example C28_nonvacuous :
   let p := mkPolicy true (fun a _ => if (a <? 3)%nat then 0 else -1) false in
